@@ -449,6 +449,92 @@ def check_blob_sizes(prog, res, ne):
                               (show(aexpr)[:60], ret_off))
 
 
+def check_resize_condition(prog, res, ne):
+    """SD.c (second half): blobResize reallocates only under a condition; when the condition is false the block it
+    keeps must already cover the header plus the new size.  The condition and blobCreate's allocation expression are
+    evaluated for old and new sizes on a grid around every page boundary (the old size is what the header word holds)."""
+    rz, cr = prog.funcs.get("blobResize"), prog.funcs.get("blobCreate")
+    if rz is None or cr is None or rz.body is None or cr.body is None:
+        raise AnalysisBroken("blobResize/blobCreate vanished")
+    alloc = [c for c in ir.calls(cr.body) if c.get("callee") == "memAlloc"]
+    if len(alloc) != 1:
+        raise AnalysisBroken("blobCreate: expected one memAlloc call")
+    aexpr = _subst_locals(alloc[0]["a"][-1], vp.single_assign_syms(cr))
+    cr_size = cr.params[0]["id"]
+    guard = None
+    for n in walk(rz.body):
+        if n.get("k") == "If" and any(c.get("callee") == "memRealloc" for c in ir.calls(n.get("then") or {})):
+            guard = n
+    if guard is None:
+        res.proved("SD.c-resize-keeps-enough-room", function="blobResize", file=rz.relfile, line=rz.line,
+                   construct="memRealloc unconditional", detail="the block is reallocated on every resize")
+        return
+    cond = _subst_locals(guard["c"], vp.single_assign_syms(rz))
+    rz_size = rz.params[1]["id"]
+
+    def ev(e, env):
+        e = strip(e)
+        k = e.get("k")
+        if k == "Int":
+            v = ir.int_val(e)
+            if v is None:
+                raise Undecided("literal")
+            return v
+        if k == "Ref":
+            if e.get("id") in env:
+                return env[e["id"]]
+            raise Undecided("value of %s" % e.get("n"))
+        if k == "Un" and e["op"] == "*":
+            return env["OLD"]            # the header word: the size the blob currently has
+        if k == "Index" and ir.int_val(e["i"]) in (0, -1):
+            return env["OLD"]
+        if k == "Un" and e["op"] == "!":
+            return 0 if ev(e["e"], env) else 1
+        if k == "Cond":
+            return ev(e["x"], env) if ev(e["c"], env) else ev(e["y"], env)
+        if k == "Bin":
+            op = e["op"]
+            if op == "&&":
+                return 1 if (ev(e["x"], env) and ev(e["y"], env)) else 0
+            if op == "||":
+                return 1 if (ev(e["x"], env) or ev(e["y"], env)) else 0
+            a, b = ev(e["x"], env), ev(e["y"], env)
+            M = 1 << 64
+            tbl = {"+": lambda: (a + b) % M, "-": lambda: (a - b) % M, "*": lambda: (a * b) % M,
+                   "/": lambda: a // b if b else 0, "%": lambda: a % b if b else 0,
+                   "==": lambda: int(a == b), "!=": lambda: int(a != b), "<": lambda: int(a < b), "<=": lambda: int(a <= b),
+                   ">": lambda: int(a > b), ">=": lambda: int(a >= b), "&": lambda: a & b, "|": lambda: a | b,
+                   ">>": lambda: a >> b, "<<": lambda: (a << b) % M}
+            if op in tbl:
+                return tbl[op]()
+        raise Undecided("expression %s in the reallocation condition" % k)
+
+    pts = sorted(set([1, 2, 7, 8, 9, 100, 500] + [p * 1024 + d for p in range(0, 5) for d in (-17, -16, -9, -8, -7, -1, 0, 1, 7, 8, 9, 16)
+                                                  if p * 1024 + d >= 1] + [65536 - 8, 65536, 65537]))
+    worst = None
+    try:
+        for old in pts:
+            have = ev(aexpr, {cr_size: old})
+            for size in pts:
+                if ev(cond, {rz_size: size, "OLD": old}):
+                    continue
+                if have < 8 + size and (worst is None or 8 + size - have > worst[0]):
+                    worst = (8 + size - have, old, size, have)
+    except Undecided as u:
+        res.undecided("SD.c-resize-keeps-enough-room", function="blobResize", file=rz.relfile, line=guard.get("l", rz.line),
+                      construct="reallocation condition", detail=str(u))
+        return
+    if worst:
+        res.violation("SD.c-resize-keeps-enough-room", function="blobResize", file=rz.relfile, line=guard.get("l", rz.line),
+                      construct="block kept although it is too small",
+                      detail="resizing a blob of %d octets to %d octets skips memRealloc, but the block obtained for %d octets has "
+                             "%d octets and header + payload need %d (short by %d)" % (worst[1], worst[2], worst[1], worst[3], 8 + worst[2], worst[0]))
+    else:
+        res.proved("SD.c-resize-keeps-enough-room", function="blobResize", file=rz.relfile, line=guard.get("l", rz.line),
+                   construct="no reallocation => block already covers header + new size",
+                   detail="checked for %d x %d (old, new) sizes around every page boundary" % (len(pts), len(pts)))
+
+
 FROZEN_UNDECIDED = [
     {"rule": "SD.a-need-within-declared", "function": "ecAddMulA", "construct": "ecAddMulA vs ecAddMulA_deep",
      "reason": "variadic: the depth function walks a va_list; not lowered by the extractor"},
@@ -465,6 +551,7 @@ def run(tier, seed=0):
     ne, sizes = check_deep(prog, res, tier)
     check_creators(prog, res, tier, ne, sizes)
     check_blob_sizes(prog, res, ne)
+    check_resize_condition(prog, res, ne)
     check_high_level_blobs(prog, res, ne)
     check_state_within_keep(prog, res, ne, sizes)
     from . import c15
